@@ -234,6 +234,31 @@ theorem deriveStatus_lifecycle (mem : OSet) (co : List CRef) (failing : Option S
 theorem deriveStatus_gen (mem : OSet) (co : List CRef) (failing : Option String) :
     (deriveStatus mem co failing).gen = mem.gen := rfl
 
+/-- `reportPausedCondition` only touches the Paused condition. -/
+theorem finishMem_condTrue_other (w : World) (mem : OSet) (t : String) (h : "Paused" ≠ t) :
+    condTrue (finishMem w mem).conds t = condTrue mem.conds t := by
+  simp only [finishMem]
+  split
+  · split
+    · split
+      · exact condTrue_setCond_other _ _ _ h
+      · exact condTrue_removeCond_other _ _ _ h
+    · exact condTrue_setCond_other _ _ _ h
+  · exact condTrue_setCond_other _ _ _ h
+
+theorem finishMem_fields (w : World) (mem : OSet) :
+    (finishMem w mem).controllerOf = mem.controllerOf ∧ (finishMem w mem).name = mem.name ∧
+    (finishMem w mem).revision = mem.revision ∧ (finishMem w mem).gen = mem.gen := by
+  simp only [finishMem]; (repeat' split) <;> exact ⟨rfl, rfl, rfl, rfl⟩
+
+/-- without delegated phases "phases are paused" is the spec's own pause flag. -/
+theorem finishMem_noRemote (w : World) (mem : OSet) (h : mem.remotePhases = []) :
+    finishMem w mem =
+      if mem.lifecycle = .paused then { mem with conds := setCond mem.conds ⟨"Paused", "True", "Paused", mem.gen, ""⟩ }
+      else { mem with conds := removeCond mem.conds "Paused" } := by
+  simp only [finishMem, h, List.isEmpty_nil, ↓reduceIte]
+  by_cases hp : mem.lifecycle = .paused <;> simp [hp]
+
 @[simp] theorem afterStatus_fst (x : Sys × Except ApiErr OSet) (r : Res) : (afterStatus x r).1 = x.1 := by
   obtain ⟨s, e⟩ := x; cases e <;> rfl
 
